@@ -254,6 +254,28 @@ def _solo_program(prog, actor):
             out.append({'kind': 'nestedstep', 'actor': actor, 'workprec': n.get('workprec', 53), 'step': n, 'id': n.get('id')})
     return out
 
+def _mp_replay_of(prog, actor, step_id, budget, seed_base, mode):
+    """value of step `step_id` when the pristine mp itself runs the clone's projection (clone creation replaced by
+    'mp takes the inherited precision'); None if it cannot be had"""
+    sp = []
+    for s in _solo_program(prog, actor):
+        if s.get('kind') == 'clone':
+            continue
+        s2 = json.loads(json.dumps(s)); s2['actor'] = 'mp'
+        if s2.get('kind') == 'nestedstep':
+            return None
+        sp.append(s2)
+    def fn():
+        rr = _execute({'steps': sp}, (budget or 300000) * 3, seed_base, None, None)
+        for x in rr['records']:
+            if x.get('id') == step_id and x['actor'] == 'mp':
+                return x
+        return None
+    st, val = isolate.call(fn, timeout=300, mode=mode)
+    if st != 'ok' or not val or 'value' not in val:
+        return None
+    return val['value']
+
 def _solo_values(prog, actor, budget, seed_base, mode):
     sp = _solo_program(prog, actor)
     key = json.dumps([actor, sp], sort_keys=True)
@@ -339,6 +361,17 @@ def _judge(res, mode, budget, seed_base):
         verdict, detail = compare.compare(h, f, get_R2, r['prec'], max(r.get('tol') or 8, 4), r.get('exact', False))
         bump('clone_judged')
         if verdict == 'violation':
+            # second opinion before reporting: the difference may come from the clone's *own* earlier calls (a memo
+            # filled before its trap_complex was switched on lets a later call return where a fresh context raises) -
+            # that is history dependence (C33's subject), not a difference between a clone and mp.  mp replays the
+            # clone's projection (same steps, same settings, alone in the pristine state); if it then agrees with the
+            # clone, nothing is reported.
+            mp_same_history = _mp_replay_of(prog, r['actor'], r['id'], budget, seed_base, mode)
+            if mp_same_history is not None:
+                v2, _d2 = compare.compare(h, mp_same_history, get_R2, r['prec'], max(r.get('tol') or 8, 4), r.get('exact', False))
+                if v2 != 'violation':
+                    bump('clone_differences_explained_by_own_history')
+                    continue
             d = {'actor': r['actor'], 'key': r.get('key'), 'prec': r['prec'], 'foreign_operand': _foreign_kind(step)}
             d.update(detail or {})
             viol.append({'property': 'C38', 'check': 'clone-differs-from-mp', 'entry': r.get('key'), 'step': r['id'], 'detail': d})
